@@ -23,7 +23,7 @@ RULE = ('values = the listed alphabet of built-in/exotic/hostile values (no __di
         'generators, iterators, coroutines, cycles, invalid UTF-8, lone surrogates ...); sites = local / watch / return / exception; '
         'k = 1..3 snapshot tracepoints on the event; plus all graphs of the C05 family with k=2,3; every case is non-trivial when the '
         'value is not a plain scalar or k>1'
-        ' ; values also: raising __getattribute__, dead weakref.proxy, Exceptions with non-tuple / raising args, Mock(spec=...), application classes named like containers, a value whose rendering takes 150 ms of the harness clock; the hostile classes again with methods raising a BaseException that is no Exception (halt_*)')
+        ' ; values also: raising __getattribute__, dead weakref.proxy, Exceptions with non-tuple / raising args, Mock(spec=...), application classes named like containers, a value whose rendering takes 150 ms of the harness clock; the hostile classes again with methods raising a BaseException that is no Exception (halt_*); dictionary keys whose hash changed / raises / whose __class__ raises / that claim to be str, classes whose metaclass hides or falsifies __name__, __str__ returning an unsliceable str subclass, a lazy __dict__ mapping')
 ASSUMPTIONS = [               'the placeholder text for an offending value is a don\'t-care; it must have an entry and the snapshot must be delivered']
 
 
@@ -166,6 +166,91 @@ def _halting(kind):
 HALTS = ['str', 'repr', 'len', 'getattr', 'prop', 'dict', 'iter', 'keys', 'args', 'key']
 
 
+class ShiftingKey:
+    """A dictionary key whose hash depends on state that changed after it was inserted (legal: the dict still prints and iterates)."""
+    def __init__(self, mode):
+        self.mode = mode
+        self.n = 1
+
+    def __hash__(self):
+        if self.mode == 'raises' and self.n != 1:
+            raise TypeError("unhashable now")
+        return self.n
+
+    def __eq__(self, other):
+        return self is other
+
+
+def _shifting(mode):
+    k = ShiftingKey(mode)
+    d = {k: 'index'}
+    k.n = 2
+    return d
+
+
+class _RaisingClassKey:
+    @property
+    def __class__(self):
+        raise RuntimeError('no class for you')
+
+    def __hash__(self):
+        return 7
+
+
+def _mock_str_key():
+    from unittest import mock
+    return {mock.Mock(spec=str): 1}
+
+
+class _MetaNameRaises(type):
+    @property
+    def __name__(cls):
+        raise RuntimeError('nameless')
+
+
+class _MetaNameInt(type):
+    @property
+    def __name__(cls):
+        return 5
+
+
+class _MetaGetattribute(type):
+    def __getattribute__(cls, name):
+        raise RuntimeError('class attribute ' + name)
+
+
+def _of_meta(meta):
+    return meta('Odd', (), {})()
+
+
+class _StrSubNoSlice(str):
+    def __getitem__(self, item):
+        raise RuntimeError('no slices')
+
+
+class StrReturnsSub:
+    def __str__(self):
+        return _StrSubNoSlice('odd text')
+
+
+class _LazyDict:
+    """__dict__ is a Mapping whose items cannot be read."""
+    @property
+    def __dict__(self):
+        import collections.abc
+
+        class M(collections.abc.Mapping):
+            def __getitem__(self, k):
+                raise RuntimeError('lazy ' + k)
+
+            def __iter__(self):
+                return iter(['a', 'b'])
+
+            def __len__(self):
+                return 2
+        return M()
+
+
 class _Target:
     pass
 
@@ -259,6 +344,12 @@ VALUES = {
 }
 
 
+VALUES.update({
+    'dict_key_hash_changed': lambda: _shifting('changes'), 'dict_key_hash_raises': lambda: _shifting('raises'),
+    'dict_key_class_raises': lambda: {_RaisingClassKey(): 1}, 'dict_key_mock_str': _mock_str_key,
+    'meta_name_raises': lambda: _of_meta(_MetaNameRaises), 'meta_name_int': lambda: _of_meta(_MetaNameInt),
+    'meta_getattribute_raises': lambda: _of_meta(_MetaGetattribute), 'str_returns_unsliceable': StrReturnsSub, 'lazy_dict_mapping': _LazyDict,
+})
 for _k in HALTS:
     VALUES['halt_' + _k] = (lambda k: (lambda: _halting(k)))(_k)
 
